@@ -78,9 +78,11 @@ class Zone(dns.zone.Zone):  # lgtm[py/missing-equals]
         self._write_event: threading.Event | None = None
         self._write_waiters: collections.deque[threading.Event] = collections.deque()
         self._readers: set[Transaction] = set()
-        self._commit_version_unlocked(
-            None, WritableVersion(self, replacement=True), origin
-        )
+        # The initial (empty) version is immutable like every other committed
+        # version, so that a reader opened on a new zone holds a snapshot too.
+        wfactory = self.writable_version_factory or WritableVersion
+        ifactory = self.immutable_version_factory or ImmutableVersion
+        self._commit_version_unlocked(None, ifactory(wfactory(self, True)), origin)
 
     def reader(
         self, id: int | None = None, serial: int | None = None
